@@ -81,4 +81,16 @@ def writeWindow2 {α : Type} (nr nc : Int) (ds : Int → Int → α) (br0 brlen 
     some fun r c => if (wr.lo ≤ r ∧ r < wr.hi) ∧ (wc.lo ≤ c ∧ c < wc.hi) then block (r - br0) (c - bc0) else ds r c
   | _, _ => none
 
+/-- the steps of `to_rio_dataset` after its argument checks, as the write model (`writeTarget` / `writeWindow2`) reads them:
+    crop the window to the dataset; an empty crop is a no-op; slice the block to the cropped window; the slice must have the
+    window's shape; convert to the dataset's type; write the data; write the mask *of the slice* when the dataset has no
+    nodata value (once, with band 1) -/
+inductive WriteStep
+  | cropToDataset | emptyIsNoop | sliceBlockToWindow | shapeMustMatch | convertDtype | writeData
+  | writeCroppedMaskIfNoNodataBand1
+  deriving Repr, DecidableEq
+
+def writeStepsModel : List WriteStep :=
+  [.cropToDataset, .emptyIsNoop, .sliceBlockToWindow, .shapeMustMatch, .convertDtype, .writeData, .writeCroppedMaskIfNoNodataBand1]
+
 end Homonim
